@@ -1,0 +1,16 @@
+//go:build verif
+
+package shell
+
+import "github.com/postalsys/muti-metroo/internal/crypto"
+
+// VerifSessionKey returns the end-to-end session key of a shell stream (nil
+// if there is none). Verification harness only (C03).
+func (h *Handler) VerifSessionKey(streamID uint64) *crypto.SessionKey {
+	h.mu.RLock()
+	defer h.mu.RUnlock()
+	if ss := h.streams[streamID]; ss != nil {
+		return ss.sessionKey
+	}
+	return nil
+}
